@@ -55,6 +55,7 @@ func c10Bounds(c *Ctx) {
 			if how == "" {
 				how = "no dominating guard or library post-condition bounds it"
 			}
+			c.nextAlt = s.AltKey(c)
 			c.Bad(rule, s.Key(), s.Pos, "%s not proven by the compiler and not discharged: %s; client-controlled data can make this expression panic", s.Expr, how)
 		}
 	}
